@@ -16,6 +16,7 @@ package bufimageutil
 
 import (
 	"fmt"
+	"maps"
 	"slices"
 	"sort"
 	"strings"
@@ -37,13 +38,15 @@ func filterImage(image bufimage.Image, options *imageFilterOptions) (bufimage.Im
 	// All excludes are added first, then includes walk included all non excluded types.
 	// TODO: consider supporting a glob syntax of some kind, to do more advanced pattern
 	//   matching, such as ability to get a package AND all of its sub-packages.
-	for excludeType := range options.excludeTypes {
+	// The types are visited in sorted order, so that the error for several failing types, and
+	// everything else that depends on the order of the walk, is the same on every run.
+	for _, excludeType := range slices.Sorted(maps.Keys(options.excludeTypes)) {
 		excludeType := protoreflect.FullName(excludeType)
 		if err := closure.excludeType(excludeType, imageIndex, options); err != nil {
 			return nil, err
 		}
 	}
-	for includeType := range options.includeTypes {
+	for _, includeType := range slices.Sorted(maps.Keys(options.includeTypes)) {
 		includeType := protoreflect.FullName(includeType)
 		if err := closure.includeType(includeType, imageIndex, options); err != nil {
 			return nil, err
